@@ -18,7 +18,8 @@ right-hand side.
 | accepted ⇒ in the domain ∧ stored ∧ read back | `accepted_sound` (every descriptor; per kind: `int_/byte_/char_/str_/struct_/float_field_accepted_sound`, `array_field_accepted_sound`), `accepted_sound_nonfloat` (no assumption), `accepted_sound_under_rounding_hypotheses`, `model_meets_spec_accepted` |
 | `get (set x v) = canon v` | `spec_readback_is_canon` (from the Spec alone: holds for any observation, model or implementation), `accepted_readback_canon`, `int_field_readback_exact`, `str_field_sound`, `double_field_exact` |
 | nothing else is touched | `accepted_touches_only_the_field`, `unselected_elements_untouched` |
-| validation in force outside disable blocks | `switch_restored`, `switch_on_after_any_program`, `outside_blocks_validated`, `outside_blocks_meet_spec`, `inside_blocks_not_validated`, `log_threads_message` (programs); `validation_restored`, `off_only_inside_disable_block`, `exception_exit_restores`, `switch_spec_holds_on_every_history` (flat event histories) |
+| validation in force outside disable blocks | `switch_restored`, `switch_on_after_any_program`, `outside_blocks_validated`, `outside_blocks_meet_spec`, `inside_blocks_not_validated`, `log_threads_message` (programs); `validation_restored`, `off_only_inside_disable_block`, `exception_exit_restores`, `switch_spec_holds_on_every_history` (the exact behaviour `ctxOk`: compared by the correspondence), `switch_in_force_outside_blocks` / `exact_switch_implies_in_force` (`ctxInForce`, the direction the property states: what PROP evaluates on the implementation) (flat event histories) |
+| ctypes instances | `str_ctypes_array_refused`: an instance of a ctypes char-array class `c_char * m` is never stored into a `String(n)` field (of the field's own class: handed to ctypes unvalidated, whose char-array setter refuses it; of another length: no `str`), validation on or off, every byte unchanged |
 
 Hypotheses that appear: `tyWF` / `valWF` (Spec/ValidatorsExt.lean: facts about Python objects the abstract values do not
 carry - a `bytes` consists of bytes, a ctypes / struct instance has the size of its class, a double has 64 bits, `String(n)`
@@ -194,7 +195,14 @@ theorem refused_atomic (ty : FTy) (old : Bytes) (key : Key) (v : PyVal) :
     · simp_all
     · exact lift_atomic _ _ (by simp_all)
     · rfl
-  | str n => simp only at h ⊢; split <;> first | rfl | exact lift_atomic _ _ (by simp_all)
+  | str n =>
+    simp only at h ⊢
+    split
+    · split
+      · rfl
+      · exact lift_atomic _ _ (by simp_all)
+    · exact lift_atomic _ _ (by simp_all)
+    · rfl
   | arr cls vk n =>
     simp only at h ⊢
     split
@@ -405,34 +413,59 @@ theorem str_field_sound (n : Nat) (hn : 1 < n) (old : Bytes) (s : Scalar) (post 
       post = upToNul cs ++ List.replicate (n - (upToNul cs).length) 0 ∧ upToNul post = upToNul cs := by
   unfold setField at h
   simp only at h
-  unfold setStr at h
-  simp only [if_true] at h
   have hn1 : ¬ n = 1 := by omega
   split at h
-  · simp [lift] at h
-  · rename_i hchk
-    unfold strCheck at hchk
-    unfold strStore at h
-    simp only [hn1, if_false] at hchk h
-    cases s with
-    | str cs =>
-      simp only at hchk h
-      split at hchk
-      · cases hchk
-      · rename_i hlen
+  · -- an instance of a ctypes char-array class: refused (by ctypes if it is the field's own class, else as "no str")
+    split at h
+    · simp at h
+    · simp [setStr, strCheck, lift] at h
+  · rename_i s' _ _ heq
+    cases heq
+    unfold setStr at h
+    simp only [if_true] at h
+    split at h
+    · simp [lift] at h
+    · rename_i hchk
+      unfold strCheck at hchk
+      unfold strStore at h
+      simp only [hn1, if_false] at hchk h
+      cases s with
+      | str cs =>
+        simp only at hchk h
         split at hchk
         · cases hchk
-        · rename_i hasc
-          simp only [hasc, Bool.false_eq_true, if_false] at h
-          split at h
-          · simp [lift] at h
-          · simp only [lift, Prod.mk.injEq, and_true] at h
-            refine ⟨cs, rfl, by omega, ?_, h.symm, ?_⟩
-            · intro c hc
-              simp only [List.any_eq_true, not_exists, not_and, decide_eq_true_eq] at hasc
-              have := hasc c hc; omega
-            · rw [← h]; exact upToNul_append_zeros _ _ (upToNul_no_zero cs)
-    | _ => cases hchk
+        · rename_i hlen
+          split at hchk
+          · cases hchk
+          · rename_i hasc
+            simp only [hasc, Bool.false_eq_true, if_false] at h
+            split at h
+            · simp [lift] at h
+            · simp only [lift, Prod.mk.injEq, and_true] at h
+              refine ⟨cs, rfl, by omega, ?_, h.symm, ?_⟩
+              · intro c hc
+                simp only [List.any_eq_true, not_exists, not_and, decide_eq_true_eq] at hasc
+                have := hasc c hc; omega
+              · rw [← h]; exact upToNul_append_zeros _ _ (upToNul_no_zero cs)
+      | _ => cases hchk
+  · exact absurd h (by simp)
+
+/-- **a ctypes char-array instance is never stored into a string field** - of the field's own class `c_char * n` (the
+descriptor hands it to ctypes unvalidated, and the setter of a char-array field wants `bytes`) or of any other length,
+with validation on or off: an exception comes out and every byte of the field is as before.  (The branch of
+`String.__set__` for `isinstance(value, self._ctype)` can therefore never *accept* anything; a change that makes it
+accept - by dropping the store, say - accepts a value outside the Spec's domain.) -/
+theorem str_ctypes_array_refused (en : Bool) (n m : Nat) (old raw : Bytes) :
+    ∃ e, setField en (.str n) old .whole (.sc (.cdata (.chars m) raw)) = (old, some e) := by
+  unfold setField
+  simp only
+  split
+  · exact ⟨_, rfl⟩
+  · cases en <;> simp [setStr, strCheck, strStore, lift]
+
+example : setField true (.str 3) [104, 105, 0] .whole (.sc (.cdata (.chars 3) [97, 98, 0])) = ([104, 105, 0], some .typeError) ∧
+    setField false (.str 3) [104, 105, 0] .whole (.sc (.cdata (.chars 2) [97, 0])) = ([104, 105, 0], some .attributeError) ∧
+    inDom (.str 3) .whole (.sc (.cdata (.chars 3) [97, 98, 0])) = false := by decide
 
 /-! ## the validation switch -/
 
@@ -582,6 +615,7 @@ theorem str_field_accepted_sound (n : Nat) (hn : 1 < n) (old : Bytes) (key : Key
     unfold setField at h
     simp only at h
     split at h
+    · exact ⟨rfl, _, rfl⟩
     · exact ⟨rfl, _, rfl⟩
     · simp at h
   obtain ⟨rfl, s, rfl⟩ := hkv
@@ -971,6 +1005,25 @@ sequence of `enter(ignore?)` / `exit(normal | exception)` events the flag is on 
 theorem switch_spec_holds_on_every_history (evs : List CtxEv) : ctxOk evs (Ctx.trace {} evs) = true :=
   trace_meets_ctxOk evs
 
+/-- **Validation is in force whenever execution is not inside a disable block** - the direction the property states, as
+the driver evaluates it on the implementation (`ctxInForce`): after every event of every history at which no block
+entered with `ignore = False` is open, the model's flag is on - also after blocks left through an exception. -/
+theorem switch_in_force_outside_blocks (evs : List CtxEv) : ctxInForce evs (Ctx.trace {} evs) = true :=
+  ctxOk_imp_ctxInForce evs _ (trace_meets_ctxOk evs)
+
+/-- the implementation-side clause is implied by the exact one: whatever observation satisfies `ctxOk` satisfies
+`ctxInForce` (the converse fails: see the example after the theorems) -/
+theorem exact_switch_implies_in_force (evs : List CtxEv) (flags : List Bool) (h : ctxOk evs flags = true) :
+    ctxInForce evs flags = true := ctxOk_imp_ctxInForce evs flags h
+
+/-- non-vacuity: the in-force clause separates observations.  `[enter, exit-by-exception]` with the flag off inside and
+still off afterwards (validation stays off after a block left through an exception) fails it; the same events with the
+flag *on* inside the block (a block that does not disable) pass it although they are not the model's exact behaviour. -/
+example : ctxInForce [.enter false, .exitExc] [false, false] = false ∧
+    ctxInForce [.enter false, .exitExc] [false, true] = true ∧
+    ctxInForce [.enter false, .exitExc] [true, true] = true ∧ ctxOk [.enter false, .exitExc] [true, true] = false ∧
+    ctxInForce [.enter true, .exitNormal] [false, true] = false := by decide
+
 /-- a view bound *inside* a disable block and used after it: validated (the bad value is refused, nothing changes); used
 inside the block: not validated (300 wraps to 44); the switch is on at the end although the last statement raised -/
 def demoTy : FTy := .arr .intArray (.int .i8) 3
@@ -1061,6 +1114,7 @@ theorem float_wrong_type_refused (k : FK) (old : Bytes) (s : Scalar)
     simp [validateOne, this]
   | int k' => rfl
   | char => rfl
+  | chars m => rfl
 
 /-- **bools are accepted** (`isinstance(True, int)`): a double field holds exactly 1.0 / 0.0 afterwards -/
 theorem double_accepts_bool (old : Bytes) (t : Bool) :
